@@ -541,6 +541,20 @@ def main(argv):
     sys.path.insert(0, os.path.join(VERIF, "checks"))
     spec.loader.exec_module(mod)
     ctx = Ctx(pid, tier, seed, replay)
+
+    def on_term(signum, frame):   # killed from outside (e.g. `timeout`): take the child processes along
+        for p in list(ctx._children):
+            try:
+                os.killpg(os.getpgid(p.pid), signal.SIGKILL)
+            except Exception:
+                try:
+                    p.kill()
+                except Exception:
+                    pass
+        ctx.cleanup()
+        os._exit(2)
+    import signal
+    signal.signal(signal.SIGTERM, on_term)
     try:
         mod.run(ctx)
         return ctx.finish()
@@ -552,6 +566,12 @@ def main(argv):
             return ctx.finish()
         if crash:
             ctx.violation("the library crashed the process it was running in: " + crash, {"kind": "library-crash", "where": crash.split(" in ")[-1]}, None)
+            return ctx.finish()
+        if ctx.violations:
+            # violations of the property were already established by an earlier part of this check; that a later part of
+            # the machinery could not finish (typically because the broken code crashed or hung it) does not undo them
+            ctx.notes.append("a later part of the check could not finish: " + str(e)[:500])
+            print("NOTE: a later part of the check could not finish (%s); the violations above stand" % str(e)[:200], flush=True)
             return ctx.finish()
         print("TROUBLE (exit 2, not a verdict): %s" % e, flush=True)
         ctx.cleanup()
